@@ -388,6 +388,10 @@ def install(cfg):
             return s_.encode("utf-8")
         return interp.mk("vbytes", S.utf8_encode(interp.ctx, interp.str_term(s_)))
 
+    @cfg.stub(api.mk_datetime)
+    def mk_datetime(interp, wall, offset=None):
+        return Foreign("datetime", wall=interp.int_term(wall), off=None if offset is None else interp.int_term(offset))
+
     @cfg.stub(api.make_key)
     def make_key(interp, kind, name, private=True, curve=None, params=None, bits=2048):
         from . import trusted_crypto as TC
